@@ -78,6 +78,13 @@ func (c *Ctx) buildFieldIndex() {
 									}
 								}
 							}
+						case *ssa.FieldAddr, *ssa.IndexAddr:
+							// nested composite literal / element write: &x.F.G = v writes (part of) F
+							if addrWritten(rr.(ssa.Value), 0) {
+								fidx.refs[k] = append(fidx.refs[k], &FieldRef{Fn: fn, Instr: rr.(ssa.Instruction), Addr: x, Write: true})
+							} else {
+								read = true
+							}
 						case *ssa.MapUpdate:
 							// m.field[k] = v where field is the map: x is loaded first (UnOp), so this
 							// case is reached only for address-of uses
@@ -101,6 +108,30 @@ func (c *Ctx) buildFieldIndex() {
 			}
 		}
 	}
+}
+
+// addrWritten: some store goes through address a (directly or through nested field/index addresses).
+func addrWritten(a ssa.Value, d int) bool {
+	if d > 4 || a.Referrers() == nil {
+		return false
+	}
+	for _, r := range *a.Referrers() {
+		switch rr := r.(type) {
+		case *ssa.Store:
+			if rr.Addr == a {
+				return true
+			}
+		case *ssa.FieldAddr:
+			if addrWritten(rr, d+1) {
+				return true
+			}
+		case *ssa.IndexAddr:
+			if addrWritten(rr, d+1) {
+				return true
+			}
+		}
+	}
+	return false
 }
 
 var bigMut = map[string]bool{"Add": true, "Sub": true, "Mul": true, "Div": true, "Set": true, "SetInt64": true, "SetUint64": true, "Neg": true, "Quo": true, "Rem": true, "Mod": true, "SetBytes": true, "SetString": true, "Exp": true, "Lsh": true, "Rsh": true, "Abs": true, "QuoRem": true, "DivMod": true, "Sqrt": true, "SetBit": true, "And": true, "Or": true, "Xor": true, "Not": true}
